@@ -7,4 +7,4 @@ Set Extraction KeepSingleton.
 From Kardia Require Import Base.Anchor.
 Extraction "../ocaml/C16/model.ml" Anchor.anchor Model.bN Model.Nb Model.encode Model.decode
   Model.decode_bytes_item Model.encode_to_bytes Model.decode_bytes Model.split Model.split_string
-  Model.split_list Model.split_uint64 Model.count_values Model.no_tag.
+  Model.split_list Model.split_uint64 Model.count_values Model.no_tag Model.stream_decode_bytes.
